@@ -141,10 +141,19 @@ func VerifC07Untouched() {
 	e := vParse(u.text)
 	vSubst(e, "7770009", "!!int", v)
 	vSubst(e, "7770001", "!!int", verifItoa(int64(i)))
-	_, err := vEval(e, doc)
+	// document-level leading content (comments before the document, a separator) as the decoder records it
+	lead := verifPick("leadingContent", "", "# c\n", "$yqDocSeparator$\n# c\n", "# c\n\n# d\n")
+	doc.LeadingContent = lead
+	res, err := vEval(e, doc)
 	verifAssert(err == nil, "C07/update-error "+u.name)
 	if err != nil {
 		return
+	}
+	verifAssert(verifEqStr(doc.LeadingContent, lead), "C07/document-leading-content-changed "+u.name)
+	for _, r := range vNodes(res) {
+		if r.Parent == nil {
+			verifAssert(verifEqStr(r.LeadingContent, lead), "C07/result-lost-document-leading-content "+u.name)
+		}
 	}
 	before := c07Dump(twin, nil, u.skipBefore, u.holeBefore)
 	after := c07Dump(doc, nil, u.skipAfter, u.holeAfter)
